@@ -12,6 +12,8 @@ CONSTANTS SHAPES
 ShapesQuick == {<<2, 2>>, <<2, 3>>, <<3, 3>>, <<2, 4>>, <<3, 4>>, <<4, 3>>, <<2, 5>>}
 ShapesFull == ShapesQuick \cup {<<4, 4>>, <<3, 5>>}
 NaiveBase(A) == Base(A)
+McIsDense(R, m, n, r, c, D) == c \in D
+McTopK(r, n) == 1
 VARIABLE cs
 vars == <<cs>>
 Init == cs = [ph |-> 0]
